@@ -1,4 +1,6 @@
-//! Program generators, one per property family.
+//! Program generators, one profile per property family, all built on one
+//! structured generator of mostly-valid single-actor programs (plus a stream of
+//! deliberately odd operations: ops on dead or moved handles, double joins, …).
 use crate::exec::{Fault, Rng, Sched};
 use crate::node::{Act, Behaviour};
 use crate::prog::{Op, Program, SpawnSpec, Strat};
@@ -30,73 +32,451 @@ fn sched(rng: &mut Rng) -> Sched {
     if rng.chance(1, 3) { Sched::Pct { d: 1 + rng.below(3) } } else { Sched::Random }
 }
 
-pub fn generate(family: &str, rng: &mut Rng) -> Case {
+/// Relative weights of what a family's programs contain.
+#[derive(Clone)]
+pub struct Profile {
+    pub name: &'static str,
+    pub bounded: u32,       // /10 chance of a bounded mailbox
+    pub max_cap: usize,
+    pub owning: u32,        // /10
+    pub stream: u32,        // /10
+    pub timeout: u32,       // /10 handler timeout configured
+    pub strat_mix: bool,    // all three strategies (else default only)
+    pub w_send: u32,
+    pub w_call: u32,
+    pub w_ping: u32,
+    pub w_handles: u32,     // clone / convert / downgrade / upgrade
+    pub w_drop: u32,
+    pub w_stop: u32,        // stop / halt / try_stop / try_halt / consume
+    pub w_restart: u32,
+    pub w_await: u32,       // await / join
+    pub w_query: u32,       // stopped? / running?
+    pub w_sleep: u32,
+    pub w_stream: u32,      // stream ready / end
+    pub w_cancel_call: u32, // call whose future is dropped
+    pub ctx_acts: u32,      // /10: handler scripts contain context actions
+    pub timers: u32,        // /10: timers registered in started / handlers
+    pub work: u32,          // /10: handlers take virtual time
+    pub faults: u32,        // /10: one injected fault
+    pub drop_root: u32,     // /10: the spawn handle is dropped after setup
+    pub kinds: &'static [u8], // handle kinds handed to clients: 0 addr 1 sender 2 caller 3 weaksender 4 weakcaller 5 weakaddr
+    pub max_clients: usize,
+    pub max_ops: usize,
+    pub horizon: u64,
+    pub prompt: u32,        // /10
+}
+
+pub const BASE: Profile = Profile {
+    name: "base",
+    bounded: 5,
+    max_cap: 3,
+    owning: 2,
+    stream: 0,
+    timeout: 0,
+    strat_mix: false,
+    w_send: 10,
+    w_call: 8,
+    w_ping: 2,
+    w_handles: 3,
+    w_drop: 1,
+    w_stop: 1,
+    w_restart: 0,
+    w_await: 1,
+    w_query: 0,
+    w_sleep: 2,
+    w_stream: 0,
+    w_cancel_call: 0,
+    ctx_acts: 0,
+    timers: 0,
+    work: 5,
+    faults: 0,
+    drop_root: 3,
+    kinds: &[0, 0, 1, 2, 3, 4],
+    max_clients: 4,
+    max_ops: 5,
+    horizon: 200,
+    prompt: 5,
+};
+
+pub fn profile(family: &str) -> Profile {
+    let b = BASE.clone();
     match family {
-        "C12" => gen_c12(rng),
-        _ => gen_c12(rng),
+        "C12" => Profile { name: "C12", bounded: 9, max_cap: 4, w_send: 14, w_call: 3, timers: 3, kinds: &[0, 0, 1, 3], ..b },
+        "C01" => Profile { name: "C01", timers: 2, ..b },
+        "C02" => Profile { name: "C02", w_call: 12, w_stop: 2, w_await: 3, faults: 6, w_cancel_call: 1, timeout: 2, owning: 4, ..b },
+        "C03" => Profile { name: "C03", strat_mix: true, w_restart: 2, w_stop: 2, faults: 4, stream: 3, w_stream: 3, timers: 3, ctx_acts: 3, ..b },
+        "C04" => Profile { name: "C04", w_stop: 4, w_await: 4, ctx_acts: 3, owning: 3, kinds: &[0, 0, 0, 1, 2, 5], ..b },
+        "C05" => Profile { name: "C05", w_handles: 8, w_drop: 6, w_stop: 0, drop_root: 8, timers: 4, kinds: &[0, 1, 2, 3, 4, 5], ..b },
+        "C07" => Profile { name: "C07", strat_mix: true, w_restart: 4, ctx_acts: 4, timers: 5, horizon: 60, ..b },
+        "C10" => Profile { name: "C10", timers: 10, w_send: 3, w_call: 3, w_stop: 2, faults: 2, horizon: 120, prompt: 7, ..b },
+        "C11" => Profile { name: "C11", timeout: 10, work: 9, w_call: 10, w_send: 5, bounded: 5, ..b },
+        "C13" => Profile { name: "C13", stream: 10, w_stream: 8, w_stop: 2, w_drop: 2, drop_root: 5, ..b },
+        "C14" => Profile { name: "C14", w_query: 8, w_stop: 3, w_await: 3, faults: 3, ctx_acts: 3, kinds: &[0, 0, 5], ..b },
+        "C15" => Profile { name: "C15", w_handles: 8, w_drop: 6, w_stop: 0, drop_root: 9, ctx_acts: 8, timers: 5, kinds: &[1, 2, 2, 3, 4, 5], ..b },
+        "C17" => Profile { name: "C17", owning: 10, w_await: 6, w_stop: 3, faults: 3, ..b },
+        "C06" => Profile { name: "C06", faults: 10, timers: 4, w_await: 3, owning: 4, timeout: 3, ..b },
+        _ => b,
     }
 }
 
-/// bounded mailbox, several senders through different handle kinds, mixed
-/// with forcing traffic, handlers with arbitrary virtual work.
-fn gen_c12(rng: &mut Rng) -> Case {
-    let cap = if rng.chance(1, 6) { None } else { Some(rng.below(5)) };
-    let mut spec = default_spec();
-    spec.cap = cap;
-    spec.owning = rng.chance(1, 4);
-    let nclients = 1 + rng.below(4);
-    let mut m = 0usize;
-    let mut next_h = 1usize;
-    let mut setup: Vec<Op> = vec![Op::Spawn { a: 0, spec, h: 0 }];
-    // each client gets its own handle derived from h0
-    let mut client_handles = vec![];
-    for _ in 0..nclients {
-        let h = next_h;
-        next_h += 1;
-        let kind = rng.below(5);
-        match kind {
-            0 | 1 => setup.push(Op::ToAddr { h: 0, h2: h }),
-            2 => setup.push(Op::MkSender { h: 0, h2: h }),
-            3 => setup.push(Op::MkWeakSender { h: 0, h2: h }),
-            _ => setup.push(Op::ToAddr { h: 0, h2: h }),
-        }
-        client_handles.push((h, kind));
+pub fn generate(family: &str, rng: &mut Rng) -> Case {
+    gen_actor(&profile(family), rng)
+}
+
+struct G<'a> {
+    rng: &'a mut Rng,
+    p: &'a Profile,
+    next_h: usize,
+    next_m: usize,
+    next_t: usize,
+    next_item: usize,
+    stream: bool,
+    restartable: bool,
+}
+
+impl<'a> G<'a> {
+    fn h(&mut self) -> usize {
+        let h = self.next_h;
+        self.next_h += 1;
+        h
     }
-    let mut clients: Vec<Vec<Op>> = vec![];
-    for (i, (h, kind)) in client_handles.iter().enumerate() {
-        let mut ops = if i == 0 { vec![] } else { vec![Op::Yield] };
-        let nops = 1 + rng.below(5);
-        for _ in 0..nops {
-            let work = if rng.chance(1, 2) { vec![Act::Work(rng.below(4) as u64)] } else { vec![] };
-            m += 1;
-            let is_addr = *kind == 0 || *kind == 1 || *kind == 4;
-            let r = rng.below(10);
-            if is_addr && r == 0 {
-                ops.push(Op::Ping { h: *h });
-            } else if is_addr && r <= 2 {
-                ops.push(Op::Call { h: *h, m, script: work });
-            } else {
-                ops.push(Op::Send { h: *h, m, script: work });
+    fn m(&mut self) -> usize {
+        self.next_m += 1;
+        self.next_m
+    }
+    fn t(&mut self) -> usize {
+        self.next_t += 1;
+        self.next_t
+    }
+    fn timer_act(&mut self) -> Act {
+        let t = self.t();
+        let d = 1 + self.rng.below(12) as u64;
+        match self.rng.below(4) {
+            0 => Act::Interval { t, d },
+            1 => Act::IntervalWith { t, d },
+            2 => Act::DelayedSend { t, d },
+            _ => Act::DelayedExec { t, d },
+        }
+    }
+    fn script(&mut self) -> Vec<Act> {
+        let mut s = vec![];
+        if self.rng.chance(self.p.work, 10) {
+            s.push(Act::Work(self.rng.below(5) as u64));
+        }
+        if self.rng.chance(self.p.ctx_acts, 10) {
+            match self.rng.below(8) {
+                0 | 1 => s.push(Act::CtxStop),
+                2 => {
+                    if self.restartable {
+                        s.push(Act::CtxRestart)
+                    }
+                }
+                3 => {
+                    let h = self.h();
+                    s.push(Act::WeakAddress(h))
+                }
+                4 => {
+                    let h = self.h();
+                    s.push(Act::WeakSender(h))
+                }
+                5 => {
+                    let h = self.h();
+                    s.push(Act::WeakCaller(h))
+                }
+                _ => s.push(Act::Yield),
             }
-            if rng.chance(1, 6) {
-                ops.push(Op::Sleep(1 + rng.below(3) as u64));
+        }
+        if self.rng.chance(self.p.timers, 30) {
+            let a = self.timer_act();
+            s.push(a);
+        }
+        if self.rng.chance(self.p.work, 20) {
+            s.push(Act::Work(self.rng.below(4) as u64));
+        }
+        s
+    }
+}
+
+fn gen_actor(p: &Profile, rng: &mut Rng) -> Case {
+    let mut tags = vec![];
+    let stream = rng.chance(p.stream, 10);
+    let cap = if rng.chance(p.bounded, 10) { Some(rng.below(p.max_cap + 1)) } else { None };
+    let strat = if stream {
+        Strat::Non
+    } else if p.strat_mix {
+        *rng.pick(&[Strat::Only, Strat::Only, Strat::Recreate, Strat::Non])
+    } else {
+        Strat::Only
+    };
+    let timeout = if !stream && rng.chance(p.timeout, 10) { Some(2 + rng.below(6) as u64) } else { None };
+    let fail = timeout.is_some() && rng.chance(1, 3);
+    let owning = rng.chance(p.owning, 10);
+    let mut g = G { rng, p, next_h: 1, next_m: 0, next_t: 0, next_item: 0, stream, restartable: strat != Strat::Non };
+    // lifecycle behaviour
+    let mut beh = Behaviour::default();
+    let mut st0 = vec![];
+    if g.rng.chance(p.timers, 10) {
+        let n = 1 + g.rng.below(2);
+        for _ in 0..n {
+            let a = g.timer_act();
+            st0.push(a);
+        }
+    }
+    if g.rng.chance(p.work, 20) {
+        st0.push(Act::Work(g.rng.below(3) as u64));
+    }
+    beh.started = vec![st0.clone()];
+    if g.rng.chance(p.work, 20) {
+        beh.stopped.push(Act::Work(g.rng.below(3) as u64));
+    }
+    if g.rng.chance(p.work, 10) {
+        beh.tick.push(Act::Work(g.rng.below(3) as u64));
+    }
+    if g.rng.chance(p.work, 10) {
+        beh.item.push(Act::Work(g.rng.below(3) as u64));
+    }
+    // faults
+    let mut cancel = None;
+    let mut fault_tag = "none";
+    if g.rng.chance(p.faults, 10) {
+        match g.rng.below(6) {
+            0 => {
+                beh.started = vec![vec![Act::Fail]];
+                fault_tag = "start_err";
+            }
+            1 => {
+                beh.started = vec![vec![Act::Panic]];
+                fault_tag = "start_panic";
+            }
+            2 => {
+                beh.stopped.push(Act::Panic);
+                fault_tag = "stopped_panic";
+            }
+            3 => {
+                cancel = Some(Fault { actor: 0, at_poll: g.rng.below(8) as u32 });
+                fault_tag = "cancel";
+            }
+            4 => {
+                // failure on a later incarnation
+                beh.started = vec![st0.clone(), vec![Act::Fail]];
+                fault_tag = "restart_err";
+            }
+            _ => fault_tag = "handler_panic", // placed on a random message below
+        }
+    }
+    let spec = SpawnSpec { k: 0, cap, strat, timeout, fail, stream, owning, plain_entry: false, behaviour: beh };
+    tags.push(format!("cap={}", cap.map(|c| c.to_string()).unwrap_or("none".into())));
+    tags.push(format!("strat={:?}", strat));
+    tags.push(format!("timeout={}", timeout.map(|c| c.to_string()).unwrap_or("none".into())));
+    tags.push(format!("stream={}", stream as u8));
+    tags.push(format!("owning={}", owning as u8));
+    tags.push(format!("fault={}", fault_tag));
+
+    let mut setup = vec![Op::Spawn { a: 0, spec, h: 0 }];
+    let nclients = 1 + g.rng.below(p.max_clients);
+    tags.push(format!("clients={}", nclients));
+    // (handle, kind) owned by each client; kind codes as in Profile.kinds, 6 = owning
+    let mut owned: Vec<Vec<(usize, u8)>> = vec![vec![]; nclients];
+    for c in 0..nclients {
+        let kind = *g.rng.pick(p.kinds);
+        let h = g.h();
+        setup.push(match kind {
+            0 => Op::ToAddr { h: 0, h2: h },
+            1 => Op::MkSender { h: 0, h2: h },
+            2 => Op::MkCaller { h: 0, h2: h },
+            3 => Op::MkWeakSender { h: 0, h2: h },
+            4 => Op::MkWeakCaller { h: 0, h2: h },
+            _ => Op::Downgrade { h: 0, h2: h },
+        });
+        owned[c].push((h, kind));
+    }
+    let drop_root = g.rng.chance(p.drop_root, 10);
+    if drop_root {
+        if owning && g.rng.chance(1, 2) {
+            let h = g.h();
+            setup.push(Op::Detach { h: 0, h2: h });
+            setup.push(Op::Drop { h });
+        } else {
+            setup.push(Op::Drop { h: 0 });
+        }
+    } else {
+        owned[0].push((0, if owning { 6 } else { 0 }));
+    }
+    tags.push(format!("droproot={}", drop_root as u8));
+
+    let panic_at = if fault_tag == "handler_panic" { Some(1 + g.rng.below(4)) } else { None };
+    let mut clients: Vec<Vec<Op>> = vec![];
+    let weights = [
+        p.w_send, p.w_call, p.w_ping, p.w_handles, p.w_drop, p.w_stop, p.w_restart, p.w_await, p.w_query, p.w_sleep,
+        if stream { p.w_stream } else { 0 }, p.w_cancel_call,
+    ];
+    let total: u32 = weights.iter().sum();
+    for c in 0..nclients {
+        let mut ops: Vec<Op> = vec![];
+        let nops = 1 + g.rng.below(p.max_ops);
+        for _ in 0..nops {
+            if owned[c].is_empty() {
+                break;
+            }
+            let mut r = g.rng.below(total as usize) as u32;
+            let mut which = 0;
+            for (i, w) in weights.iter().enumerate() {
+                if r < *w {
+                    which = i;
+                    break;
+                }
+                r -= *w;
+            }
+            // occasionally use somebody else's handle or a stale id (odd stream)
+            let (h, kind) = if g.rng.chance(1, 25) {
+                let oc = g.rng.below(nclients);
+                if owned[oc].is_empty() { owned[c][0] } else { *g.rng.pick(&owned[oc]) }
+            } else {
+                *g.rng.pick(&owned[c])
+            };
+            let strong_addr = kind == 0;
+            match which {
+                0 => {
+                    // send-like: addr / owning / sender / weaksender
+                    let (hh, _) = pick_kind(&owned[c], &[0, 6, 1, 3], g.rng).unwrap_or((h, kind));
+                    let m = g.m();
+                    let mut script = g.script();
+                    if panic_at == Some(m) {
+                        script.push(Act::Panic);
+                    }
+                    ops.push(Op::Send { h: hh, m, script });
+                }
+                1 => {
+                    let (hh, _) = pick_kind(&owned[c], &[0, 6, 2, 4], g.rng).unwrap_or((h, kind));
+                    let m = g.m();
+                    let mut script = g.script();
+                    if panic_at == Some(m) {
+                        script.push(Act::Panic);
+                    }
+                    ops.push(Op::Call { h: hh, m, script });
+                }
+                2 => {
+                    if let Some((hh, _)) = pick_kind(&owned[c], &[0, 6], g.rng) {
+                        ops.push(Op::Ping { h: hh });
+                    }
+                }
+                3 => {
+                    let h2 = g.h();
+                    let (op, k2): (Op, u8) = match (kind, g.rng.below(7)) {
+                        (0, 0) | (0, 6) => (Op::Clone { h, h2 }, 0),
+                        (0, 1) | (6, 1) => (Op::MkSender { h, h2 }, 1),
+                        (0, 2) | (6, 2) => (Op::MkCaller { h, h2 }, 2),
+                        (0, 3) | (6, 3) => (Op::MkWeakSender { h, h2 }, 3),
+                        (0, 4) | (6, 4) => (Op::MkWeakCaller { h, h2 }, 4),
+                        (0, 5) | (6, 5) => (Op::Downgrade { h, h2 }, 5),
+                        (6, _) => (Op::ToAddr { h, h2 }, 0),
+                        (1, 0) | (1, 1) | (1, 2) => (Op::Clone { h, h2 }, 1),
+                        (1, _) => (Op::Downgrade { h, h2 }, 3),
+                        (2, 0) | (2, 1) | (2, 2) => (Op::Clone { h, h2 }, 2),
+                        (2, _) => (Op::Downgrade { h, h2 }, 4),
+                        (3, 0) | (3, 1) => (Op::Clone { h, h2 }, 3),
+                        (3, _) => (Op::Upgrade { h, h2 }, 1),
+                        (4, 0) | (4, 1) => (Op::Clone { h, h2 }, 4),
+                        (4, _) => (Op::Upgrade { h, h2 }, 2),
+                        (5, 0) | (5, 1) => (Op::Clone { h, h2 }, 5),
+                        (_, _) => (Op::Upgrade { h, h2 }, 0),
+                    };
+                    ops.push(op);
+                    owned[c].push((h2, k2));
+                }
+                4 => {
+                    ops.push(Op::Drop { h });
+                    owned[c].retain(|x| x.0 != h);
+                }
+                5 => match kind {
+                    0 => {
+                        if g.rng.chance(1, 3) {
+                            ops.push(Op::Halt { h });
+                            owned[c].retain(|x| x.0 != h);
+                        } else {
+                            ops.push(Op::Stop { h });
+                        }
+                    }
+                    5 => {
+                        if g.rng.chance(1, 2) {
+                            ops.push(Op::TryHalt { h })
+                        } else {
+                            ops.push(Op::TryStop { h })
+                        }
+                    }
+                    6 => {
+                        ops.push(Op::Consume { h });
+                        owned[c].retain(|x| x.0 != h);
+                    }
+                    _ => {}
+                },
+                6 => {
+                    if strong_addr && g.restartable {
+                        ops.push(Op::Restart { h });
+                    }
+                }
+                7 => match kind {
+                    0 => ops.push(Op::Await { h }),
+                    6 => {
+                        if g.rng.chance(1, 4) {
+                            let h2 = g.h();
+                            ops.push(Op::Detach { h, h2 });
+                            owned[c].retain(|x| x.0 != h);
+                            owned[c].push((h2, 0));
+                        } else {
+                            ops.push(Op::Join { h })
+                        }
+                    }
+                    _ => {}
+                },
+                8 => {
+                    if kind == 0 || kind == 5 || kind == 6 {
+                        if g.rng.chance(1, 2) || kind == 5 {
+                            ops.push(Op::Stopped { h })
+                        } else {
+                            ops.push(Op::Running { h })
+                        }
+                    }
+                }
+                9 => ops.push(Op::Sleep(1 + g.rng.below(6) as u64)),
+                10 => {
+                    if g.stream {
+                        if g.rng.chance(1, 6) {
+                            ops.push(Op::StreamEnd { a: 0 });
+                        } else {
+                            let k = g.next_item;
+                            g.next_item += 1;
+                            ops.push(Op::StreamReady { a: 0, k });
+                        }
+                    }
+                }
+                _ => {
+                    if let Some((hh, _)) = pick_kind(&owned[c], &[0, 6, 2], g.rng) {
+                        let m = g.m();
+                        let script = vec![Act::Work(1 + g.rng.below(4) as u64)];
+                        ops.push(Op::CallCancel { h: hh, m, script, after: g.rng.below(4) as u64 });
+                    }
+                }
+            }
+            if g.rng.chance(1, 8) {
+                ops.push(Op::Yield);
             }
         }
         clients.push(ops);
     }
-    // occasionally stop at the end of client 0
-    if rng.chance(1, 3) {
-        let (h, kind) = client_handles[0];
-        if kind == 0 || kind == 1 || kind == 4 {
-            clients[0].push(Op::Stop { h });
-        }
-    }
+    let prompt = g.rng.chance(p.prompt, 10);
+    tags.push(format!("prompt={}", prompt as u8));
     Case {
         program: Program { setup, clients },
-        sched: sched(rng),
-        prompt: rng.chance(1, 2),
-        horizon: 1000,
-        cancel: None,
-        tags: vec![format!("cap={:?}", cap), format!("clients={}", nclients)],
+        sched: sched(g.rng),
+        prompt,
+        horizon: p.horizon,
+        cancel,
+        tags,
     }
+}
+
+fn pick_kind(owned: &[(usize, u8)], kinds: &[u8], rng: &mut Rng) -> Option<(usize, u8)> {
+    let c: Vec<(usize, u8)> = owned.iter().filter(|x| kinds.contains(&x.1)).cloned().collect();
+    if c.is_empty() { None } else { Some(*rng.pick(&c)) }
 }
